@@ -1,73 +1,68 @@
 /-
 C19  Arc length is bracketed by chord and control polygon.
 
-`Gen.chord_length`, `Gen.control_polygon_length`, `Gen.subdivide4`, `Gen.curve_reverse` are regenerated from
-length.rs / subdivide.rs / curve.rs; `Model.Length` is the hand model of the `section_length` loop (Float mirror
-checked against the implementation).  Theorems over any real normed space (1-D, 2-D, 3-D alike).
+Everything here is about definitions REGENERATED from the Rust source on every run: `Gen.section_length` /
+`Gen.curve_length` (length.rs, the whole `while let Some((section, max_error)) = waiting.pop()` stack loop),
+`Gen.section_new / section_subsection / section_start_point / section_control_points / section_end_point` (section.rs),
+`Gen.chord_length`, `Gen.control_polygon_length`, `Gen.subdivide4`, `Gen.curve_reverse`.  No hand model.
+The loop is an `iterFuel` over the state `(total_length, waiting)`; `LengthL.lengthStep` is its body and
+`LengthL.section_length_eq` (proved by `rfl` against the generated text) says that `section_length` is the total
+of that loop.  The theorems hold FOR EVERY FUEL, for every tolerance, for points of any real normed space
+(1-D, 2-D, 3-D alike), in exact real arithmetic.
 -/
-import FloVerif.Model.Length
-import Mathlib.Analysis.Normed.Module.Basic
-import Mathlib.Tactic.Ring
-import Mathlib.Tactic.NormNum.OfScientific
-import Mathlib.Tactic.Linarith
-import Mathlib.Tactic.Module
+import FloVerif.Lemmas.Length
 
 set_option linter.unusedSectionVars false
+set_option linter.unusedSimpArgs false
 namespace C19
-open Prelude Gen Model.Length
+open Prelude Gen LengthL
 
 variable {E : Type} [NormedAddCommGroup E] [NormedSpace ℝ E]
 
-private theorem norm_smul_nonneg (k : ℝ) (v : E) (hk : 0 ≤ k) : ‖k • v‖ = k * ‖v‖ := by
-  rw [norm_smul, Real.norm_eq_abs, abs_of_nonneg hk]
+/-! ### one piece -/
 
-/-- a point of the normed space, as the code's `Coordinate`: `+`, `-` and `p * k` (scalar multiplication) -/
-structure Pt (E : Type) where
-  v : E
-
-instance : Add (Pt E) := ⟨fun a b => ⟨a.v + b.v⟩⟩
-instance : Sub (Pt E) := ⟨fun a b => ⟨a.v - b.v⟩⟩
-instance : HMul (Pt E) ℝ (Pt E) := ⟨fun a k => ⟨k • a.v⟩⟩
-
-/-- `distance_to` -/
-noncomputable def dist (a b : Pt E) : ℝ := ‖a.v - b.v‖
-
-@[simp] theorem add_v (a b : Pt E) : (a + b).v = a.v + b.v := rfl
-@[simp] theorem sub_v (a b : Pt E) : (a - b).v = a.v - b.v := rfl
-@[simp] theorem mul_v (a : Pt E) (k : ℝ) : (a * k).v = k • a.v := rfl
-
-/-- chord ≤ control polygon (triangle inequality) -/
+/-- chord ≤ control polygon (triangle inequality), for any four points -/
 theorem chord_le_polygon (c : T4 (Pt E) (Pt E) (Pt E) (Pt E)) :
-    chord_length dist c.t0 c.t1 c.t2 c.t3 ≤ control_polygon_length dist c.t0 c.t1 c.t2 c.t3 := by
-  simp only [chord_length, control_polygon_length, dist]
+    chord_length pdist c.t0 c.t1 c.t2 c.t3 ≤ control_polygon_length pdist c.t0 c.t1 c.t2 c.t3 := by
+  simp only [chord_length, control_polygon_length, pdist]
   have : c.t0.v - c.t3.v = (c.t0.v - c.t1.v) + (c.t1.v - c.t2.v) + (c.t2.v - c.t3.v) := by abel
   rw [this]
   exact norm_add₃_le
 
-/-- every accepted piece's estimate lies between its chord and its control polygon -/
-theorem piece_bracket (c : T4 (Pt E) (Pt E) (Pt E) (Pt E)) :
-    chord_length dist c.t0 c.t1 c.t2 c.t3 ≤ estimate dist c ∧ estimate dist c ≤ control_polygon_length dist c.t0 c.t1 c.t2 c.t3 := by
-  have h := chord_le_polygon c
-  simp only [estimate]
-  have h2 : (2.0 : ℝ) = 2 := by norm_num
-  have h4 : (4.0 : ℝ) = 4 := by norm_num
-  rw [h2, h4]
+/-- ACCEPTED PIECE: the value `(2·chord + 2·polygon)/4` that the generated loop adds for an accepted section
+    (`step_concat`: that is exactly what one accepting iteration adds) lies between the chord and the control polygon
+    of that section - for EVERY section, valid or not -/
+theorem piece_bracket (w1 w2 w3 w4 : Pt E) (s : SectionT ℝ) :
+    chordOf pdist w1 w2 w3 w4 s ≤ estimateOf pdist w1 w2 w3 w4 s ∧
+    estimateOf pdist w1 w2 w3 w4 s ≤ polyOf pdist w1 w2 w3 w4 s := by
+  have h := chord_le_polygon (secPts w1 w2 w3 w4 s)
+  simp only [estimateOf, lit20, lit40]
+  change chordOf pdist w1 w2 w3 w4 s ≤ polyOf pdist w1 w2 w3 w4 s at h
   constructor <;> linarith
 
-/-- splitting at 1/2 never lengthens the control polygon and never shortens the sum of the chords -/
+/-- non-vacuity: for the 1-D cubic 0, 3, −3, 0 the bracket is `[0, 12]`, the accepted estimate is 6 -/
+example : chordOf pdist (⟨0⟩ : Pt ℝ) ⟨3⟩ ⟨-3⟩ ⟨0⟩ (section_new (0.0 : ℝ) (1.0 : ℝ)) = 0 ∧
+    estimateOf pdist (⟨0⟩ : Pt ℝ) ⟨3⟩ ⟨-3⟩ ⟨0⟩ (section_new (0.0 : ℝ) (1.0 : ℝ)) = 6 ∧
+    polyOf pdist (⟨0⟩ : Pt ℝ) ⟨3⟩ ⟨-3⟩ ⟨0⟩ (section_new (0.0 : ℝ) (1.0 : ℝ)) = 12 := by
+  simp only [estimateOf, polyOf_whole, chordOf_whole, ex_poly, ex_chord]; norm_num
+
+/-- splitting four points at 1/2 with the generated `subdivide4` never lengthens the control polygon and never
+    shortens the sum of the chords -/
 theorem halves_shrink (c : T4 (Pt E) (Pt E) (Pt E) (Pt E)) :
     let h := subdivide4 (0.5 : ℝ) c.t0 c.t1 c.t2 c.t3
-    control_polygon_length dist h.t0.t0 h.t0.t1 h.t0.t2 h.t0.t3 + control_polygon_length dist h.t1.t0 h.t1.t1 h.t1.t2 h.t1.t3
-      ≤ control_polygon_length dist c.t0 c.t1 c.t2 c.t3 ∧
-    chord_length dist c.t0 c.t1 c.t2 c.t3
-      ≤ chord_length dist h.t0.t0 h.t0.t1 h.t0.t2 h.t0.t3 + chord_length dist h.t1.t0 h.t1.t1 h.t1.t2 h.t1.t3 := by
+    control_polygon_length pdist h.t0.t0 h.t0.t1 h.t0.t2 h.t0.t3 + control_polygon_length pdist h.t1.t0 h.t1.t1 h.t1.t2 h.t1.t3
+      ≤ control_polygon_length pdist c.t0 c.t1 c.t2 c.t3 ∧
+    chord_length pdist c.t0 c.t1 c.t2 c.t3
+      ≤ chord_length pdist h.t0.t0 h.t0.t1 h.t0.t2 h.t0.t3 + chord_length pdist h.t1.t0 h.t1.t1 h.t1.t2 h.t1.t3 := by
   obtain ⟨⟨w1⟩, ⟨w2⟩, ⟨w3⟩, ⟨w4⟩⟩ := c
   have hh : (0.5 : ℝ) = 1/2 := by norm_num
   have h1 : (1.0 : ℝ) = 1 := by norm_num
-  simp only [subdivide4, de_casteljau2, control_polygon_length, chord_length, dist, hh, h1, add_v, sub_v, mul_v]
+  simp only [subdivide4, de_casteljau2, control_polygon_length, chord_length, pdist, hh, h1, add_v, sub_v, mul_v]
   set a := w1 - w2 with ha
   set b := w2 - w3 with hb
   set cc := w3 - w4 with hc
+  have hn : ∀ (k : ℝ) (v : E), 0 ≤ k → ‖k • v‖ = k * ‖v‖ := fun k v hk => by
+    rw [norm_smul, Real.norm_eq_abs, abs_of_nonneg hk]
   constructor
   · have e1 : w1 - (((1:ℝ) - 1/2) • w1 + (1/2:ℝ) • w2) = (1/2:ℝ) • a := by simp only [ha]; module
     have e2 : ((1:ℝ) - 1/2) • w1 + (1/2:ℝ) • w2 -
@@ -85,7 +80,6 @@ theorem halves_shrink (c : T4 (Pt E) (Pt E) (Pt E) (Pt E)) :
         (((1:ℝ) - 1/2) • w3 + (1/2:ℝ) • w4) = (1/4:ℝ) • b + (1/4:ℝ) • cc := by simp only [hb, hc]; module
     have e6 : ((1:ℝ) - 1/2) • w3 + (1/2:ℝ) • w4 - w4 = (1/2:ℝ) • cc := by simp only [hc]; module
     rw [e1, e2, e3, e4, e5, e6]
-    have hn := @norm_smul_nonneg E _ _
     have n1 : ‖(1/2:ℝ) • a‖ = 1/2 * ‖a‖ := hn (1/2) a (by norm_num)
     have n6 : ‖(1/2:ℝ) • cc‖ = 1/2 * ‖cc‖ := hn (1/2) cc (by norm_num)
     have n2 : ‖(1/4:ℝ) • a + (1/4:ℝ) • b‖ ≤ 1/4 * ‖a‖ + 1/4 * ‖b‖ := by
@@ -98,34 +92,348 @@ theorem halves_shrink (c : T4 (Pt E) (Pt E) (Pt E) (Pt E)) :
     linarith [norm_nonneg a, norm_nonneg b, norm_nonneg cc]
   · exact norm_sub_le_norm_sub_add_norm_sub _ _ _
 
-/-- LENGTH BRACKET: for every curve, tolerance and recursion depth the model's length lies between the chord and
-    the control polygon of the curve -/
-theorem length_bracket (n : Nat) (c : T4 (Pt E) (Pt E) (Pt E) (Pt E)) (e : ℝ) :
-    chord_length dist c.t0 c.t1 c.t2 c.t3 ≤ lengthGo dist n c e ∧ lengthGo dist n c e ≤ control_polygon_length dist c.t0 c.t1 c.t2 c.t3 := by
-  induction n generalizing c e with
-  | zero => simpa [lengthGo] using piece_bracket c
-  | succ k ih =>
-    simp only [lengthGo]
-    split
-    · exact piece_bracket c
-    · have hs := halves_shrink c
-      simp only at hs
-      have hl := ih (subdivide4 (0.5 : ℝ) c.t0 c.t1 c.t2 c.t3).t0 (e / 2.0)
-      have hr := ih (subdivide4 (0.5 : ℝ) c.t0 c.t1 c.t2 c.t3).t1 (e / 2.0)
-      constructor <;> linarith [hs.1, hs.2, hl.1, hl.2, hr.1, hr.2]
+/-- SPLIT PIECE, as the loop does it: for every valid section (`t_c < 1`, `0 ≤ t_m`, `t_c + t_m ≤ 1`) the two
+    sections `subsection(0, 0.5)`, `subsection(0.5, 1)` pushed by the loop have control polygons summing to at most the
+    section's polygon and chords summing to at least its chord (their points are the de Casteljau halves of the
+    section's points, `secPts_halves`; then `halves_shrink`) -/
+theorem section_halves_shrink (w1 w2 w3 w4 : Pt E) (s : SectionT ℝ) (h : Valid s) :
+    polyOf pdist w1 w2 w3 w4 (section_subsection s (0.0 : ℝ) (0.5 : ℝ)) +
+      polyOf pdist w1 w2 w3 w4 (section_subsection s (0.5 : ℝ) (1.0 : ℝ)) ≤ polyOf pdist w1 w2 w3 w4 s ∧
+    chordOf pdist w1 w2 w3 w4 s ≤ chordOf pdist w1 w2 w3 w4 (section_subsection s (0.0 : ℝ) (0.5 : ℝ)) +
+      chordOf pdist w1 w2 w3 w4 (section_subsection s (0.5 : ℝ) (1.0 : ℝ)) := by
+  have hs := halves_shrink (secPts w1 w2 w3 w4 s)
+  obtain ⟨hl, hr⟩ := secPts_halves w1 w2 w3 w4 s h
+  simp only at hs hl hr
+  rw [← hl, ← hr] at hs
+  exact hs
 
-theorem curve_length_bracket (c : T4 (Pt E) (Pt E) (Pt E) (Pt E)) (e : ℝ) :
-    chord_length dist c.t0 c.t1 c.t2 c.t3 ≤ curveLength dist c e ∧ curveLength dist c e ≤ control_polygon_length dist c.t0 c.t1 c.t2 c.t3 :=
-  length_bracket 64 c e
+/-- non-vacuity: the section `[0,1]` that `curve_length` starts with is valid, and so are its halves, and the loop does
+    split it for the curve 0, 3, −3, 0 at tolerance 1 (`(12 − 0)² = 144 ≥ 1`) -/
+example : Valid (section_new (0.0 : ℝ) (1.0 : ℝ)) ∧
+    Valid (section_subsection (section_new (0.0 : ℝ) (1.0 : ℝ)) (0.5 : ℝ) (1.0 : ℝ)) ∧
+    ¬ Accept pdist (⟨0⟩ : Pt ℝ) ⟨3⟩ ⟨-3⟩ ⟨0⟩ (section_new (0.0 : ℝ) (1.0 : ℝ)) 1 := by
+  refine ⟨valid_whole, valid_right valid_whole, ?_⟩
+  simp only [Accept, polyOf_whole, chordOf_whole, ex_poly, ex_chord]; norm_num
 
-/-- reversing a curve leaves chord, control polygon and (in exact arithmetic) every level of the recursion unchanged -/
+/-! ### the loop invariant
+
+`LengthL.Inv w s0 st` (Lemmas/Length.lean): every waiting section is valid, `U = total + Σ_waiting polygon ≤ polygon(s0)`,
+`L = total + Σ_waiting chord ≥ chord(s0)`, `total ≥ 0`. -/
+
+/-- EVERY ITERATION PRESERVES THE INVARIANT (accepted piece: `piece_bracket`; split piece: `section_halves_shrink`;
+    empty stack: the state is returned unchanged) -/
+theorem step_preserves (w1 w2 w3 w4 : Pt E) (s0 : SectionT ℝ) (st r : St) (h : Inv w1 w2 w3 w4 s0 st)
+    (hr : lengthStep pdist w1 w2 w3 w4 st = Sum.inl r ∨ lengthStep pdist w1 w2 w3 w4 st = Sum.inr r) :
+    Inv w1 w2 w3 w4 s0 r := by
+  obtain ⟨total, waiting⟩ := st
+  rcases List.eq_nil_or_concat waiting with rfl | ⟨rest, ⟨s, e⟩, rfl⟩
+  · rw [step_nil] at hr
+    rcases hr with hr | hr
+    · exact absurd hr (by simp)
+    · rw [← Sum.inr.inj hr]; exact h
+  · rw [List.concat_eq_append] at h hr
+    classical
+    rw [step_concat] at hr
+    obtain ⟨hv, hU, hL, h0⟩ := h
+    simp only [sumPoly, sumChord, List.map_append, List.sum_append, List.map_cons, List.map_nil, List.sum_cons,
+      List.sum_nil, add_zero] at hU hL
+    have hvs : Valid s := hv ⟨s, e⟩ (by simp)
+    have hvr : ∀ x ∈ rest, Valid x.t0 := fun x hx => hv x (by simp [hx])
+    by_cases hacc : Accept pdist w1 w2 w3 w4 s e
+    · -- accepted
+      simp only [if_pos hacc, reduceCtorEq, or_false, Sum.inl.injEq] at hr
+      subst hr
+      obtain ⟨hb1, hb2⟩ := piece_bracket w1 w2 w3 w4 s
+      refine ⟨hvr, ?_, ?_, ?_⟩
+      · simp only [sumPoly]; linarith
+      · simp only [sumChord]; linarith
+      · simp only at h0 ⊢; linarith [chordOf_nonneg w1 w2 w3 w4 s]
+    · -- split
+      simp only [if_neg hacc, reduceCtorEq, or_false, Sum.inl.injEq] at hr
+      subst hr
+      obtain ⟨hs1, hs2⟩ := section_halves_shrink w1 w2 w3 w4 s hvs
+      refine ⟨?_, ?_, ?_, h0⟩
+      · intro x hx
+        simp only [List.mem_append, List.mem_singleton] at hx
+        rcases hx with (hx | rfl) | rfl
+        · exact hvr x hx
+        · exact valid_left hvs
+        · exact valid_right hvs
+      · simp only [sumPoly, List.map_append, List.sum_append, List.map_cons, List.map_nil, List.sum_cons,
+          List.sum_nil, add_zero]; linarith
+      · simp only [sumChord, List.map_append, List.sum_append, List.map_cons, List.map_nil, List.sum_cons,
+          List.sum_nil, add_zero]; linarith
+
+/-- LOOP INVARIANT of the generated loop: for every valid start section, every tolerance and EVERY FUEL, the state
+    in which the loop ends - whichever way it ends - satisfies the invariant (by `iterFuel_invariant`) -/
+theorem loop_invariant (fuel : Nat) (w1 w2 w3 w4 : Pt E) (s0 : SectionT ℝ) (e : ℝ) (h : Valid s0) :
+    Inv w1 w2 w3 w4 s0 (lengthLoop fuel pdist w1 w2 w3 w4 s0 e) := by
+  refine iterFuel_invariant (Inv w1 w2 w3 w4 s0) (Inv w1 w2 w3 w4 s0) _ _
+    (fun st r hs hr => step_preserves w1 w2 w3 w4 s0 st r hs (Or.inl hr))
+    (fun st r hs hr => step_preserves w1 w2 w3 w4 s0 st r hs (Or.inr hr)) (fun _ hs => hs) fuel _ ?_
+  refine ⟨?_, ?_, ?_, ?_⟩
+  · intro x hx; simp only [List.mem_singleton] at hx; subst hx; exact h
+  · simp [sumPoly, lit00]
+  · simp [sumChord, lit00]
+  · simp [lit00]
+
+/-! ### consequences for `section_length` and `curve_length` -/
+
+/-- UPPER BOUND, EVEN OUT OF FUEL: for every valid section, tolerance and fuel,
+    `0 ≤ section_length ≤ control polygon of the section` -/
+theorem section_length_le_polygon (fuel : Nat) (w1 w2 w3 w4 : Pt E) (s : SectionT ℝ) (e : ℝ) (h : Valid s) :
+    0 ≤ section_length fuel pdist w1 w2 w3 w4 s e ∧
+    section_length fuel pdist w1 w2 w3 w4 s e ≤ polyOf pdist w1 w2 w3 w4 s := by
+  rw [section_length_eq]
+  obtain ⟨_, hU, _, h0⟩ := loop_invariant fuel w1 w2 w3 w4 s e h
+  exact ⟨h0, by linarith [sumPoly_nonneg w1 w2 w3 w4 (lengthLoop fuel pdist w1 w2 w3 w4 s e).t1]⟩
+
+/-- BRACKET WHEN THE STACK WAS EMPTIED: if the loop ended with an empty stack (i.e. not because the fuel ran out)
+    then `chord ≤ section_length ≤ polygon` -/
+theorem section_length_bracket (fuel : Nat) (w1 w2 w3 w4 : Pt E) (s : SectionT ℝ) (e : ℝ) (h : Valid s)
+    (hdone : (lengthLoop fuel pdist w1 w2 w3 w4 s e).t1 = []) :
+    chordOf pdist w1 w2 w3 w4 s ≤ section_length fuel pdist w1 w2 w3 w4 s e ∧
+    section_length fuel pdist w1 w2 w3 w4 s e ≤ polyOf pdist w1 w2 w3 w4 s := by
+  refine ⟨?_, (section_length_le_polygon fuel w1 w2 w3 w4 s e h).2⟩
+  rw [section_length_eq]
+  obtain ⟨_, _, hL, _⟩ := loop_invariant fuel w1 w2 w3 w4 s e h
+  rw [hdone] at hL
+  simpa [sumChord] using hL
+
+/-- `curve_length` NEVER EXCEEDS THE CONTROL POLYGON: for every curve, every tolerance and every fuel (also when the
+    fuel ran out) `0 ≤ curve_length ≤ control_polygon_length` -/
+theorem curve_length_le_polygon (fuel : Nat) (w1 w2 w3 w4 : Pt E) (e : ℝ) :
+    0 ≤ curve_length fuel pdist w1 w2 w3 w4 e ∧
+    curve_length fuel pdist w1 w2 w3 w4 e ≤ control_polygon_length pdist w1 w2 w3 w4 := by
+  have h := section_length_le_polygon fuel w1 w2 w3 w4 _ e valid_whole
+  rw [polyOf_whole] at h
+  exact h
+
+/-- LENGTH BRACKET: if the loop of `curve_length` ended because its stack was empty then
+    `chord_length ≤ curve_length ≤ control_polygon_length` -/
+theorem curve_length_bracket (fuel : Nat) (w1 w2 w3 w4 : Pt E) (e : ℝ)
+    (hdone : (lengthLoop fuel pdist w1 w2 w3 w4 (section_new (0.0 : ℝ) (1.0 : ℝ)) e).t1 = []) :
+    chord_length pdist w1 w2 w3 w4 ≤ curve_length fuel pdist w1 w2 w3 w4 e ∧
+    curve_length fuel pdist w1 w2 w3 w4 e ≤ control_polygon_length pdist w1 w2 w3 w4 := by
+  have h := section_length_bracket fuel w1 w2 w3 w4 _ e valid_whole hdone
+  rw [polyOf_whole, chordOf_whole] at h
+  exact h
+
+/-- non-vacuity of `hdone`, and the value: at tolerance 1000 the curve 0, 3, −3, 0 is accepted at once; the loop ends
+    with an empty stack and `curve_length = 6 ∈ [0, 12]` -/
+example : curve_length 5 pdist (⟨0⟩ : Pt ℝ) ⟨3⟩ ⟨-3⟩ ⟨0⟩ 1000 = 6 ∧
+    (lengthLoop 5 pdist (⟨0⟩ : Pt ℝ) ⟨3⟩ ⟨-3⟩ ⟨0⟩ (section_new (0.0 : ℝ) (1.0 : ℝ)) 1000).t1 = [] := by
+  have hacc : Accept pdist (⟨0⟩ : Pt ℝ) ⟨3⟩ ⟨-3⟩ ⟨0⟩ (section_new (0.0 : ℝ) (1.0 : ℝ)) 1000 := by
+    left; simp only [polyOf_whole, chordOf_whole, ex_poly, ex_chord]; norm_num
+  have hrun : lengthLoop 5 pdist (⟨0⟩ : Pt ℝ) ⟨3⟩ ⟨-3⟩ ⟨0⟩ (section_new (0.0 : ℝ) (1.0 : ℝ)) 1000 = T2.mk 6 [] := by
+    classical
+    show iterFuel (4 + 1) _ _ (T2.mk (0.0 : ℝ) ([] ++ [_])) = _
+    rw [iterFuel_succ_inl _ _ 4 _ _ (by rw [step_concat, if_pos hacc]), iterFuel_nil]
+    simp only [estimateOf, polyOf_whole, chordOf_whole, ex_poly, ex_chord]
+    norm_num
+  constructor
+  · show section_length 5 _ _ _ _ _ _ _ = 6
+    rw [section_length_eq, hrun]
+  · rw [hrun]
+
+/-- the hypothesis `hdone` of the lower bound cannot be dropped: with fuel 0 the loop returns 0, below the chord 3 of
+    the straight curve 0, 1, 2, 3 (the upper bound `curve_length_le_polygon` still holds) -/
+example (e : ℝ) : curve_length 0 pdist (⟨0⟩ : Pt ℝ) ⟨1⟩ ⟨2⟩ ⟨3⟩ e = 0 ∧
+    chord_length pdist (⟨0⟩ : Pt ℝ) ⟨1⟩ ⟨2⟩ ⟨3⟩ = 3 := by
+  constructor
+  · show section_length 0 _ _ _ _ _ _ _ = 0
+    rw [section_length_eq]; simp [lengthLoop, iterFuel, lit00]
+  · simp only [chord_length, pdist, Real.norm_eq_abs]; norm_num
+
+/-! ### termination, work and depth (any point type, any distance function: only the tolerances matter) -/
+
+section work
+variable {P : Type} [Add P] [Sub P] [HMul P ℝ P]
+
+/-- A STATED FUEL SUFFICES: if `max_error ≤ MIN_ERROR · 2^D` (i.e. `D ≥ log2(max_error / 1e-12)`) then `2^(D+1) − 1`
+    iterations empty the stack: with at least that much fuel the generated loop ends because `waiting.pop()` returned
+    `None`, never because the fuel ran out. (Potential: `work(waiting) = Σ (2^(lvl e + 1) − 1)` strictly decreases in
+    every iteration, `step_work`, and is `2^(lvl max_error + 1) − 1 ≤ 2^(D+1) − 1` at the start.) For a non-positive
+    tolerance `D = 0`: one iteration. -/
+theorem fuel_suffices (fuel D : Nat) (dist : P → P → ℝ) (w1 w2 w3 w4 : P) (s : SectionT ℝ) (e : ℝ)
+    (hD : e ≤ (1e-12 : ℝ) * 2 ^ D) (hf : 2 ^ (D + 1) - 1 ≤ fuel) :
+    (lengthLoop fuel dist w1 w2 w3 w4 s e).t1 = [] := by
+  refine iterFuel_measure (fun _ => True) (fun st : St => work st.t1) (fun r : St => r.t1 = []) _ _
+    (fun st st' _ h => ⟨trivial, step_work dist w1 w2 w3 w4 st st' h⟩)
+    (fun st r _ h => by obtain ⟨h1, h2⟩ := step_exit dist w1 w2 w3 w4 st r h; rw [h1]; exact h2)
+    (fun st _ h => work_eq_zero h) fuel _ trivial ?_
+  rw [work_single]
+  have h1 : lvl e ≤ D := lvl_le hD
+  have h2 : 2 ^ (lvl e + 1) ≤ 2 ^ (D + 1) := Nat.pow_le_pow_right (by norm_num) (by omega)
+  simp only
+  omega
+
+/-- WORK BOUND: the loop performs at most `2^(D+1) − 1` iterations - any larger fuel gives the very same final state
+    (total and empty stack), so the result of `section_length` does not depend on the fuel beyond that number -/
+theorem fuel_independent (fuel D : Nat) (dist : P → P → ℝ) (w1 w2 w3 w4 : P) (s : SectionT ℝ) (e : ℝ)
+    (hD : e ≤ (1e-12 : ℝ) * 2 ^ D) (hf : 2 ^ (D + 1) - 1 ≤ fuel) :
+    lengthLoop fuel dist w1 w2 w3 w4 s e = lengthLoop (2 ^ (D + 1) - 1) dist w1 w2 w3 w4 s e ∧
+    section_length fuel dist w1 w2 w3 w4 s e = section_length (2 ^ (D + 1) - 1) dist w1 w2 w3 w4 s e := by
+  have hN := fuel_suffices (2 ^ (D + 1) - 1) D dist w1 w2 w3 w4 s e hD le_rfl
+  have hst : lengthStep dist w1 w2 w3 w4 (lengthLoop (2 ^ (D + 1) - 1) dist w1 w2 w3 w4 s e)
+      = Sum.inr (lengthLoop (2 ^ (D + 1) - 1) dist w1 w2 w3 w4 s e) := by
+    generalize lengthLoop (2 ^ (D + 1) - 1) dist w1 w2 w3 w4 s e = st at hN
+    obtain ⟨t, l⟩ := st
+    simp only at hN; subst hN
+    exact step_nil dist w1 w2 w3 w4 t
+  have h := iterFuel_stable (lengthStep dist w1 w2 w3 w4) (2 ^ (D + 1) - 1) _ hst (fuel - (2 ^ (D + 1) - 1))
+  have e1 : 2 ^ (D + 1) - 1 + (fuel - (2 ^ (D + 1) - 1)) = fuel := by omega
+  rw [e1] at h
+  have h' : lengthLoop fuel dist w1 w2 w3 w4 s e = lengthLoop (2 ^ (D + 1) - 1) dist w1 w2 w3 w4 s e := h
+  exact ⟨h', by rw [section_length_eq, section_length_eq, h']⟩
+
+/-- DEPTH BOUND: at every moment (= for every fuel) every piece on the stack is at some depth `d ≤ D`: its tolerance
+    is exactly `max_error / 2^d` and its parameter width exactly `t_m / 2^d`. So the recursion never goes deeper than
+    `D = ⌈log2(max_error / 1e-12)⌉` levels, whatever the curve and the distance function do. -/
+theorem depth_bound (fuel D : Nat) (dist : P → P → ℝ) (w1 w2 w3 w4 : P) (s : SectionT ℝ) (e : ℝ)
+    (hD : e ≤ (1e-12 : ℝ) * 2 ^ D) :
+    ∀ x ∈ (lengthLoop fuel dist w1 w2 w3 w4 s e).t1,
+      ∃ d : Nat, d ≤ D ∧ x.t1 = e / 2 ^ d ∧ x.t0.t_m = s.t_m / 2 ^ d := by
+  let I : St → Prop := fun st => ∀ x ∈ st.t1, ∃ d : Nat, d ≤ D ∧ x.t1 = e / 2 ^ d ∧ x.t0.t_m = s.t_m / 2 ^ d
+  refine iterFuel_invariant I I _ _ ?_ ?_ (fun _ hs => hs) fuel _ ?_
+  · intro st st' hI hst
+    obtain ⟨total, waiting⟩ := st
+    rcases List.eq_nil_or_concat waiting with rfl | ⟨rest, ⟨s1, e1⟩, rfl⟩
+    · rw [step_nil] at hst; exact absurd hst (by simp)
+    · rw [List.concat_eq_append] at hI hst
+      classical
+      rw [step_concat] at hst
+      have hrest : ∀ x ∈ rest, ∃ d : Nat, d ≤ D ∧ x.t1 = e / 2 ^ d ∧ x.t0.t_m = s.t_m / 2 ^ d :=
+        fun x hx => hI x (by simp [hx])
+      by_cases hacc : Accept dist w1 w2 w3 w4 s1 e1
+      · simp only [if_pos hacc, Sum.inl.injEq] at hst
+        subst hst
+        exact hrest
+      · simp only [if_neg hacc, Sum.inl.injEq] at hst
+        subst hst
+        obtain ⟨d, hd, he1, hm1⟩ := hI ⟨s1, e1⟩ (by simp)
+        simp only at he1 hm1
+        have hne : ¬ e1 ≤ (1e-12 : ℝ) := fun hle => hacc (Or.inr hle)
+        have hpos : (0 : ℝ) < 2 ^ d := by positivity
+        have hdD : d < D := by
+          by_contra hge
+          have hdd : d = D := by omega
+          subst hdd
+          apply hne
+          rw [he1, div_le_iff₀ hpos]
+          exact hD
+        have hchild : ∀ t : SectionT ℝ, t.t_m = s1.t_m / 2 →
+            ∃ d' : Nat, d' ≤ D ∧ e1 / (2.0 : ℝ) = e / 2 ^ d' ∧ t.t_m = s.t_m / 2 ^ d' := by
+          intro t ht
+          refine ⟨d + 1, hdD, ?_, ?_⟩
+          · rw [he1, lit20, pow_succ]; field_simp
+          · rw [ht, hm1, pow_succ]; field_simp
+        intro x hx
+        simp only [List.mem_append, List.mem_singleton] at hx
+        rcases hx with (hx | rfl) | rfl
+        · exact hrest x hx
+        · exact hchild _ (by rw [sub_left_eq])
+        · exact hchild _ (by rw [sub_right_eq])
+  · intro st r hI hst
+    obtain ⟨h1, _⟩ := step_exit dist w1 w2 w3 w4 st r hst
+    rw [h1]; exact hI
+  · intro x hx
+    simp only [List.mem_singleton] at hx
+    subst hx
+    exact ⟨0, Nat.zero_le _, by simp, by simp⟩
+
+/-- STACK BOUND: at every moment (= for every fuel) the stack holds at most `D + 1` pieces (`e ≤ 1e-12 · 2^D`): the
+    piece at height `i` has tolerance at most `e / 2^i`, and a piece that is split has tolerance above `1e-12`. So the
+    `Vec` never grows beyond 35 / 28 / 15 entries for `e = 1e-2 / 1e-4 / 1e-8`, whatever the curve. -/
+theorem stack_bound (fuel D : Nat) (dist : P → P → ℝ) (w1 w2 w3 w4 : P) (s : SectionT ℝ) (e : ℝ)
+    (hD : e ≤ (1e-12 : ℝ) * 2 ^ D) :
+    (lengthLoop fuel dist w1 w2 w3 w4 s e).t1.length ≤ D + 1 := by
+  let I : St → Prop := fun st => TolOK e 0 st.t1 ∧ st.t1.length ≤ D + 1
+  refine (iterFuel_invariant I I _ _ ?_ ?_ (fun _ hs => hs) fuel _ ?_).2
+  · intro st st' hI hst
+    obtain ⟨total, waiting⟩ := st
+    rcases List.eq_nil_or_concat waiting with rfl | ⟨rest, ⟨s1, e1⟩, rfl⟩
+    · rw [step_nil] at hst; exact absurd hst (by simp)
+    · rw [List.concat_eq_append] at hI hst
+      classical
+      rw [step_concat] at hst
+      obtain ⟨hT, hlen⟩ := hI
+      simp only [tolOK_append, TolOK, Nat.zero_add, and_true, List.length_append, List.length_cons,
+        List.length_nil] at hT hlen
+      obtain ⟨hTr, hTe⟩ := hT
+      by_cases hacc : Accept dist w1 w2 w3 w4 s1 e1
+      · simp only [if_pos hacc, Sum.inl.injEq] at hst
+        subst hst
+        exact ⟨hTr, by simp only; omega⟩
+      · simp only [if_neg hacc, Sum.inl.injEq] at hst
+        subst hst
+        have hne : (1e-12 : ℝ) < e1 := not_le.1 (fun hle => hacc (Or.inr hle))
+        have hpos : (0 : ℝ) < 2 ^ rest.length := by positivity
+        have hmin : (0 : ℝ) < 1e-12 := by norm_num
+        -- the split piece sits at height `rest.length < D`
+        have hk : rest.length < D := by
+          by_contra hge
+          have hle : (2 : ℝ) ^ D ≤ 2 ^ rest.length := pow_le_pow_right₀ (by norm_num) (by omega)
+          have h1 : e1 * 2 ^ rest.length ≤ e := (le_div_iff₀ hpos).1 hTe
+          nlinarith
+        refine ⟨?_, ?_⟩
+        · simp only [tolOK_append, TolOK, Nat.zero_add, and_true, List.length_append, List.length_cons,
+            List.length_nil, lit20]
+          refine ⟨⟨hTr, ?_⟩, ?_⟩
+          · linarith
+          · rw [pow_succ, ← div_div]; linarith
+        · simp only [List.length_append, List.length_cons, List.length_nil]; omega
+  · intro st r hI hst
+    obtain ⟨h1, _⟩ := step_exit dist w1 w2 w3 w4 st r hst
+    rw [h1]; exact hI
+  · exact ⟨by simp [TolOK], by simp⟩
+
+/-- THE STACK LOOP IS THE RECURSION (any point type, any distance function): with `e ≤ 1e-12 · 2^D` and fuel
+    `≥ 2^(D+1) − 1` the generated `section_length` returns exactly the recursive sum `recLen D s e` - accept the piece
+    and take `(2·chord + 2·polygon)/4`, or add the two halves at half the tolerance (Graphics Gems V IV.7). The former
+    hand model of the loop is now a theorem about the generated loop (`loop_runs_rec`: a piece on top of the stack is
+    consumed in at most `2^(n+1) − 1` iterations, leaves the rest of the stack untouched and adds exactly its
+    recursive sum). -/
+theorem loop_is_recursion (fuel D : Nat) (dist : P → P → ℝ) (w1 w2 w3 w4 : P) (s : SectionT ℝ) (e : ℝ)
+    (hD : e ≤ (1e-12 : ℝ) * 2 ^ D) (hf : 2 ^ (D + 1) - 1 ≤ fuel) :
+    section_length fuel dist w1 w2 w3 w4 s e = recLen dist w1 w2 w3 w4 D s e :=
+  section_length_eq_rec fuel D dist w1 w2 w3 w4 s e hD hf
+
+end work
+
+/-- BRACKET WITH A STATED FUEL: for every curve and every tolerance `e ≤ 1e-12 · 2^D`, any fuel `≥ 2^(D+1) − 1` gives
+    `chord_length ≤ curve_length ≤ control_polygon_length` (and the same value as any other such fuel) -/
+theorem curve_length_bracket_of_fuel (fuel D : Nat) (w1 w2 w3 w4 : Pt E) (e : ℝ)
+    (hD : e ≤ (1e-12 : ℝ) * 2 ^ D) (hf : 2 ^ (D + 1) - 1 ≤ fuel) :
+    chord_length pdist w1 w2 w3 w4 ≤ curve_length fuel pdist w1 w2 w3 w4 e ∧
+    curve_length fuel pdist w1 w2 w3 w4 e ≤ control_polygon_length pdist w1 w2 w3 w4 :=
+  curve_length_bracket fuel w1 w2 w3 w4 e (fuel_suffices fuel D pdist w1 w2 w3 w4 _ e hD hf)
+
+/-- the tolerances of the property: `1e-2`, `1e-4`, `1e-8` are below `1e-12 · 2^34`, `2^27`, `2^14`: depth at most
+    34 / 27 / 14, at most 35 / 28 / 15 stack entries and at most `2^35 − 1` / `2^28 − 1` / `2^15 − 1` iterations -/
+example : (1e-2 : ℝ) ≤ 1e-12 * 2 ^ 34 ∧ (1e-4 : ℝ) ≤ 1e-12 * 2 ^ 27 ∧ (1e-8 : ℝ) ≤ 1e-12 * 2 ^ 14 := by
+  norm_num
+
+/-- reversing a curve leaves its chord and its control polygon unchanged -/
 theorem reverse_invariants (c : T4 (Pt E) (Pt E) (Pt E) (Pt E)) :
     let r := curve_reverse c.t0 c.t1 c.t2 c.t3
-    chord_length dist r.t0 r.t1 r.t2 r.t3 = chord_length dist c.t0 c.t1 c.t2 c.t3 ∧
-    control_polygon_length dist r.t0 r.t1 r.t2 r.t3 = control_polygon_length dist c.t0 c.t1 c.t2 c.t3 := by
-  simp only [curve_reverse, chord_length, control_polygon_length, dist]
+    chord_length pdist r.t0 r.t1 r.t2 r.t3 = chord_length pdist c.t0 c.t1 c.t2 c.t3 ∧
+    control_polygon_length pdist r.t0 r.t1 r.t2 r.t3 = control_polygon_length pdist c.t0 c.t1 c.t2 c.t3 := by
+  simp only [curve_reverse, chord_length, control_polygon_length, pdist]
   constructor
   · exact norm_sub_rev _ _
   · rw [norm_sub_rev c.t3.v c.t2.v, norm_sub_rev c.t2.v c.t1.v, norm_sub_rev c.t1.v c.t0.v]; ring
+
+/-- REVERSAL INVARIANCE OF THE LENGTH (exact arithmetic): with fuel `≥ 2^(D+1) − 1` (`e ≤ 1e-12 · 2^D`)
+    `curve_length` of the reversed curve equals `curve_length` of the curve: every section of the reversed curve is the
+    mirrored section of the curve with the same chord and polygon, so the same pieces are accepted and the two halves
+    just swap (`recLen_reverse`); the loop computes that recursion (`loop_is_recursion`). -/
+theorem curve_length_reverse (fuel D : Nat) (w1 w2 w3 w4 : Pt E) (e : ℝ)
+    (hD : e ≤ (1e-12 : ℝ) * 2 ^ D) (hf : 2 ^ (D + 1) - 1 ≤ fuel) :
+    let r := curve_reverse w1 w2 w3 w4
+    curve_length fuel pdist r.t0 r.t1 r.t2 r.t3 e = curve_length fuel pdist w1 w2 w3 w4 e := by
+  simp only [curve_reverse, curve_length]
+  rw [loop_is_recursion fuel D pdist w4 w3 w2 w1 _ e hD hf, loop_is_recursion fuel D pdist w1 w2 w3 w4 _ e hD hf,
+    recLen_reverse w1 w2 w3 w4 D _ e inner_whole, mirror_whole]
 
 end C19
